@@ -22,7 +22,7 @@ from fractions import Fraction
 
 from .. import tae_conf
 from ..common import find_nodes, lib_reachable, short, src_file, src_fn, where
-from ..exprs import format_parts, mentions, strip
+from ..exprs import closure_of, format_parts, mentions, strip
 from ..mirlib import Expr, Program, expr_str
 from ..tae import DIRS, DIR_OFF, TableError, Tables, arc_geometry, on_segment
 
@@ -442,6 +442,26 @@ def t2(run, T):
                     if len(pieces) == 2 and pieces[0][0] == "lit" and pieces[1] == ("arg",) and len(args) == 1:
                         fld = [f for f in strip(args[0][1])[2] if not f.startswith("@")] if strip(args[0][1])[0] in ("param", "field") else []
                         prefixes.append((pieces[0][1], [x for x in strip(args[0][1])[2] if x in ("start_marker", "end_marker")] if strip(args[0][1])[0] == "param" else fld))
+        # ... or built inside `ml.<side>_marker.map(|marker| class(format!("<side>_marked_{}", marker)))`: the argument is
+        # the item of the Option the closure is mapped over
+        for q in prog.closures_of(mln[0]):
+            qex = Expr(prog, q)
+            for bid, t in prog.calls(q):
+                if not re.search(r"commons::class$", Program.callee_name(t)):
+                    continue
+                fp = format_parts(qex.operand(t["args"][0]))
+                if not fp:
+                    continue
+                pieces, args = fp
+                if not (len(pieces) == 2 and pieces[0][0] == "lit" and pieces[1] == ("arg",) and len(args) == 1 and strip(args[0][1])[:2] == ("param", 2)):
+                    continue
+                side = None
+                for _, pt in prog.calls(mln[0]):
+                    if re.search(r"Option::<T>::(map|and_then)$", Program.callee_name(pt)) and len(pt["args"]) == 2 and closure_of(ex.operand(pt["args"][1]))[0] == q:
+                        recv = strip(ex.operand(pt["args"][0]))
+                        if recv[0] == "param":
+                            side = [x for x in recv[2] if x in ("start_marker", "end_marker")]
+                prefixes.append((pieces[0][1], side or []))
         want = {("start_marked_", "start_marker"), ("end_marked_", "end_marker")}
         got = {(a, (b[0] if b else None)) for a, b in prefixes}
         if got == want:
